@@ -712,9 +712,11 @@ on every run of `./check C01` — do not edit.  One theorem per instantiable rew
 the expression built by `create` denotes the same (size, index ↦ R) as the optimiser's
 specification applied to the matched expression; every recursive `X_opt::create(..)` is a
 fresh variable `rᵢ` with the induction hypothesis `hᵢ`.  All are closed by the one fixed
-tactic `remora_rule` (Lemmas/Remora.lean).
+tactic `remora_rule` (Lemmas/Remora.lean).  Each rule also gets `rule_*_wf`: the rewritten
+expression satisfies the size checks again (closed by `remora_rule_wf`), so that rules compose.
 -/
 import SharkVerif.Lemmas.Remora
+import SharkVerif.Lemmas.RemoraOpt
 namespace SharkVerif.Remora.Rules
 open SharkVerif.Remora
 variable {R : Type} [CommRing R]
@@ -724,9 +726,10 @@ variable {R : Type} [CommRing R]
 
 OPT_HEADER = """/-
 GENERATED by translate/remora_rules.py — do not edit.
-An executable optimiser `genOpt` assembled from the rule table (every rule whose recursive calls
-take sub-terms of the matched expression; the product families, which match on the literal scalar 1,
-and rules with run-time side conditions are left to the per-rule lemmas), and the proof that it
+An executable optimiser `genOpt` assembled from the rule table (all rules of the proxy,
+scalar-multiply and unary families, including those whose recursive calls are nested; the product
+families, which match on the literal scalar 1, the primary templates and rules with run-time side
+conditions are left to the per-rule lemmas), and the proof that it
 is `Sound` — case by case from the generated lemmas of Gen/RemoraRules.lean.  `optimize_sound`
 (Props/C01.lean) then gives: rewriting with `genOpt` to any depth preserves the denotation.
 -/
@@ -762,8 +765,6 @@ def emit_optimizer(translated):
         tr = t["tr"]
         if t["opt"] not in FAMILIES or t["default"] or tr["checks"] or tr["conversions"]:
             continue
-        if any(re.search(r"\br\d+\b", a) for c in tr["calls"] for a in c["args"]):
-            continue
         fam.setdefault(t["opt"], []).append(t)
     out = [OPT_HEADER]
     n = 0
@@ -785,38 +786,41 @@ def emit_optimizer(translated):
                     txt = re.sub(r"(?<![A-Za-z0-9_'.])" + re.escape(old) + r"(?![A-Za-z0-9_'])", new, txt)
                 return txt
             rhs = rn(tr["rhs"])
-            recs = {}
+            recs, specs = {}, []
+
+            def sub(txt):
+                for var, rep in recs.items():
+                    txt = re.sub(r"(?<![A-Za-z0-9_'.])" + re.escape(var) + r"(?![A-Za-z0-9_'])", lambda m, rep=rep: rep, txt)
+                return txt
             for c, (hn, hs) in zip(tr["calls"], tr["hyps"]):
-                spec = rn(hs.split("≈", 1)[1][1:].strip())
+                spec = sub(rn(hs.split("≈", 1)[1][1:].strip()))       # earlier results may occur in later calls
                 crs = OPTIMIZERS[c["opt"]][0]
                 recs[c["var"]] = f"({'recV' if crs == 'V' else 'recM'} ({spec}))"
-            for var, rep in recs.items():
-                rhs = re.sub(r"(?<![A-Za-z0-9_'.])" + re.escape(var) + r"(?![A-Za-z0-9_'])", lambda m, rep=rep: rep, rhs)
+                specs.append((c["var"], crs, spec))
+            rhs = sub(rhs)
             pat = parts[0]
             pat = re.sub(r"\((VExp|MExp)\.", "(.", pat) if pat.startswith("(") else pat
             arms.append(f"  | {pat[1:-1] if pat.startswith('(') else pat} => {rhs}")
-            # proof: rule lemma applied to the binders (recursive results in place of the r_i)
             args = []
             for (bn, bt) in tr["binders"]:
-                if bn in recs:
-                    args.append(recs[bn])
-                else:
-                    args.append(rn(bn))
+                args.append(recs[bn] if bn in recs else rn(bn))
             pvars = re.findall(r"[A-Za-z_][A-Za-z0-9_']*", parts[0])
             pvars = [v for v in pvars if v not in ("VExp", "MExp", "true", "false") and not re.match(r"^(scal|const|unit|unary|add|binary|concat|mvprod|rowFold|rep|outer|mmprod|diagm|lit)$", v)]
-            ihs = " ".join(f"({'hV' if OPTIMIZERS[c['opt']][0] == 'V' else 'hM'} _ (by remora_wf))" for c in tr["calls"])
-            proofs.append(f"  · next {' '.join(pvars)} =>\n    exact {t['name']} {' '.join(args)} hwf {ihs}")
+            haves = "".join(f"\n    have ih_{var} := {'hV' if crs == 'V' else 'hM'} ({spec}) (by remora_wf)" for var, crs, spec in specs)
+            eqs = " ".join(f"ih_{var}.1" for var, _, _ in specs)
+            wfs = " ".join(f"ih_{var}.2" for var, _, _ in specs)
+            proofs.append(f"  · next {' '.join(pvars)} =>{haves}\n    exact ⟨{t['name']} {' '.join(args)} hwf {eqs},\n      {t['name']}_wf {' '.join(args)} hwf {wfs} {eqs}⟩")
             n += 1
         spec_x = f"{ctor} x {' '.join(extras)}".strip()
         out.append(f"/-- `{opt}`: {len(rules)} rules -/\n"
                    f"def {helper} (recV : VExp R → VExp R) (recM : MExp R → MExp R) (x : {xsort}) {sig} : {LEAN_TYPE[rs]} :=\n"
                    f"  match x with\n" + "\n".join(arms) + f"\n  | x => {spec_x}\n\n")
         out.append(f"theorem {helper}_sound (recV : VExp R → VExp R) (recM : MExp R → MExp R)\n"
-                   f"    (hV : ∀ e : VExp R, e.WF → recV e ≈ᵥ e) (hM : ∀ m : MExp R, m.WF → recM m ≈ₘ m)\n"
+                   f"    (hV : ∀ e : VExp R, e.WF → recV e ≈ᵥ e ∧ (recV e).WF) (hM : ∀ m : MExp R, m.WF → recM m ≈ₘ m ∧ (recM m).WF)\n"
                    f"    (x : {xsort}) {sig} (hwf : ({spec_x}).WF) :\n"
-                   f"    {helper} recV recM x {' '.join(extras)} {rel} {spec_x} := by\n"
+                   f"    {helper} recV recM x {' '.join(extras)} {rel} {spec_x} ∧ ({helper} recV recM x {' '.join(extras)}).WF := by\n"
                    f"  unfold {helper}\n  split\n" + "\n".join(proofs) +
-                   f"\n  · exact {'vequiv_refl' if rs == 'V' else 'mequiv_refl'} _\n\n")
+                   f"\n  · exact ⟨{'vequiv_refl' if rs == 'V' else 'mequiv_refl'} _, hwf⟩\n\n")
     # the optimiser
     varms = [f"    | {TOP_PATTERN[c]} => {h} recV recM x {' '.join(e)}".rstrip() for o, (h, c, e) in FAMILIES.items() if OPTIMIZERS[o][0] == "V"]
     marms = [f"    | {TOP_PATTERN[c]} => {h} recV recM x {' '.join(e)}".rstrip() for o, (h, c, e) in FAMILIES.items() if OPTIMIZERS[o][0] == "M"]
@@ -830,13 +834,13 @@ def emit_optimizer(translated):
     mproof = "\n".join(f"  · next x {' '.join(e)} => exact {h}_sound recV recM hV hM x {' '.join(e)} hwf".replace("  =>", " =>")
                         for o, (h, c, e) in FAMILIES.items() if OPTIMIZERS[o][0] == "M")
     out.append("theorem genStepV_sound (recV : VExp R → VExp R) (recM : MExp R → MExp R)\n"
-               "    (hV : ∀ e : VExp R, e.WF → recV e ≈ᵥ e) (hM : ∀ m : MExp R, m.WF → recM m ≈ₘ m)\n"
-               "    (e : VExp R) (hwf : e.WF) : genStepV recV recM e ≈ᵥ e := by\n  unfold genStepV\n  split\n"
-               + vproof + "\n  · exact vequiv_refl _\n\n")
+               "    (hV : ∀ e : VExp R, e.WF → recV e ≈ᵥ e ∧ (recV e).WF) (hM : ∀ m : MExp R, m.WF → recM m ≈ₘ m ∧ (recM m).WF)\n"
+               "    (e : VExp R) (hwf : e.WF) : genStepV recV recM e ≈ᵥ e ∧ (genStepV recV recM e).WF := by\n  unfold genStepV\n  split\n"
+               + vproof + "\n  · exact ⟨vequiv_refl _, hwf⟩\n\n")
     out.append("theorem genStepM_sound (recV : VExp R → VExp R) (recM : MExp R → MExp R)\n"
-               "    (hV : ∀ e : VExp R, e.WF → recV e ≈ᵥ e) (hM : ∀ m : MExp R, m.WF → recM m ≈ₘ m)\n"
-               "    (e : MExp R) (hwf : e.WF) : genStepM recV recM e ≈ₘ e := by\n  unfold genStepM\n  split\n"
-               + mproof + "\n  · exact mequiv_refl _\n\n")
+               "    (hV : ∀ e : VExp R, e.WF → recV e ≈ᵥ e ∧ (recV e).WF) (hM : ∀ m : MExp R, m.WF → recM m ≈ₘ m ∧ (recM m).WF)\n"
+               "    (e : MExp R) (hwf : e.WF) : genStepM recV recM e ≈ₘ e ∧ (genStepM recV recM e).WF := by\n  unfold genStepM\n  split\n"
+               + mproof + "\n  · exact ⟨mequiv_refl _, hwf⟩\n\n")
     out.append(f"/-- number of rewrite rules built into `genStepV` / `genStepM` -/\ndef genOptRuleCount : Nat := {n}\n\n")
     out.append("end SharkVerif.Remora.Rules\n")
     return "".join(out), n
@@ -884,6 +888,10 @@ def main():
         out.append(f"/-- `{r['opt']}<{pat}>` (expression_optimizers.hpp:{r['line']}) -/\n"
                    f"theorem {name} {binders}\n    (hwf : ({tr['lhs']}).WF){checks}{hyps} :\n"
                    f"    {tr['rhs']} {rel} {tr['lhs']} := by\n  remora_rule\n\n")
+        wfs = "".join(f"\n    (w{c['var']} : {c['var']}.WF)" for c in tr["calls"])
+        out.append(f"/-- … and the rewritten expression is well-formed again (so that rules compose) -/\n"
+                   f"theorem {name}_wf {binders}\n    (hwf : ({tr['lhs']}).WF){checks}{wfs}{hyps} :\n"
+                   f"    ({tr['rhs']}).WF := by\n  remora_rule_wf\n\n")
         translated.append(dict(name=name, opt=r["opt"], default=r["pattern"] is None, tr=tr))
         table.append(dict(name=name, opt=r["opt"], pattern=pat, line=r["line"], status="translated",
                           lhs=tr["lhs"], rhs=tr["rhs"], calls=tr["calls"], checks=tr["checks"], conversions=tr["conversions"],
